@@ -227,9 +227,10 @@ def contract_solver(P):
     return solver
 
 
-def functional_solver(P):
+def functional_solver(P, contract=False):
     """spsolve as an uninterpreted but deterministic function: identical argument terms give the identical result
-    vector, anything else a fresh unconstrained vector (so a system assembled at a stale state yields a different update)"""
+    vector, anything else a fresh vector (so a system assembled at a stale state yields a different update); with ``contract`` the
+    vector additionally satisfies A dx = rhs whenever A has no all-zero row"""
     from symrun.scalars import CTX, Sym
 
     memo = {}
@@ -240,7 +241,22 @@ def functional_solver(P):
     def solver(A, rhs, k):
         key = keyof(A, rhs)
         if key not in memo:
-            memo[key] = (len(memo), P.vector("dxf%d" % len(memo), len(rhs)))
+            dx = P.vector("dxf%d" % len(memo), len(rhs))
+            memo[key] = (len(memo), dx)
+            if contract:
+                n = len(rhs)
+
+                def is_zero(x):
+                    x = Sym.lift(x)
+                    return x.is_const() and x.v == 0
+
+                if not any(all(is_zero(A[i][j]) for j in range(n)) for i in range(n)):
+                    for i in range(n):
+                        acc = 0.0
+                        for j in range(n):
+                            if not is_zero(A[i][j]):
+                                acc = acc + A[i][j] * dx[j]
+                        CTX.cons.append(Sym.lift(acc).z() == Sym.lift(rhs[i]).z())
         return memo[key][1]
 
     def shadow_name(A, rhs):
